@@ -191,6 +191,33 @@ def generate(name):
                         text += "\npub fn __verif_long_jump(pc: usize, target: usize) -> Option<Vec<u32>> { Some(crate::injector_core::arm64_codegenerator::maybe_emit_long_jump(pc, target)) }\n"
                     else:
                         text += "\npub fn __verif_long_jump(_pc: usize, _target: usize) -> Option<Vec<u32>> { None }\n"
+            if kind == "sim" and arch == "aarch64" and osname != "macos":
+                # optional direct seam for the entry-branch writer (C15: displacements across and
+                # beyond +/-128 MiB are refused, not wrapped); skipped if its shape changes
+                pa = os.path.join(src_root, "injector_core", "patch_arm64.rs")
+                shape = r"\bfn\s+apply_branch_patch\s*\(\s*src\s*:\s*FuncPtrInternal\s*,\s*jit_memory\s*:\s*\*mut\s+u8\s*,\s*jit_size\s*:\s*usize\s*,\s*original_bytes\s*:\s*&\[u8\]\s*,?\s*\)\s*->\s*PatchGuard"
+                try:
+                    have_b = re.search(shape, open(pa).read()) is not None
+                except OSError:
+                    have_b = False
+                if rel == os.path.join("injector_core", "patch_arm64.rs") and have_b:
+                    text = re.sub(r"(?<![A-Za-z0-9_(])fn\s+apply_branch_patch\s*\(", "pub(crate) fn apply_branch_patch(", text, count=1)
+                if rel == "lib.rs":
+                    if have_b:
+                        text += """
+pub fn __verif_branch_patch(func: usize, jit: usize) -> Option<Result<(), String>> {
+    use crate::injector_core::common::{read_bytes, FuncPtrInternal};
+    let r = std::panic::catch_unwind(move || unsafe {
+        let src = FuncPtrInternal::new(std::ptr::NonNull::new_unchecked(func as *mut ()));
+        let orig = read_bytes(func as *mut u8, 12);
+        let g = crate::injector_core::patch_arm64::apply_branch_patch(src, jit as *mut u8, 20, &orig);
+        std::mem::forget(g);
+    });
+    Some(r.map_err(|p| p.downcast_ref::<String>().cloned().or_else(|| p.downcast_ref::<&str>().map(|s| s.to_string())).unwrap_or_default()))
+}
+"""
+                    else:
+                        text += "\npub fn __verif_branch_patch(_func: usize, _jit: usize) -> Option<Result<(), String>> { None }\n"
             dst = os.path.join(out_root, "src", rel)
             wanted.add(dst)
             write_if_changed(dst, text)
